@@ -171,7 +171,7 @@ package packfile
 // targetSz bytes were written to the output (mw is the writer every copy
 // goes to) and the whole delta stream was consumed.
 //gvc:func patchDeltaWriter
-//gvc:  props C06
+//gvc:  props C06 C09
 //gvc:  theory int
 //gvc:  opt coarse
 //gvc:  opt frame args
